@@ -794,6 +794,64 @@ macro_rules! impl_realish {
 }
 impl_realish!(SymR);
 impl_realish!(Cn);
+/// The inherent method surface of `f32`/`f64` that vek's float macro bodies (hook H1) may reach for: with these
+/// defined inherently, `self.clamp(lo, hi)`, `self.max(lo).min(hi)`, `self.rem_euclid(m)`, `self.abs()` ... in a
+/// macro body resolve for the symbolic and the replay scalar exactly as they do for the primitive floats (inherent
+/// methods win over trait methods, so nothing depends on which traits the expanding module has in scope).
+/// Semantics: std's documented ones, in exact reals (NaN cases do not arise).
+macro_rules! f32_like_inherent { ($T:ty) => {
+    #[allow(dead_code)]
+    impl $T {
+        pub fn clamp(self, min: $T, max: $T) -> $T {
+            assert!(min <= max, "min > max, or either was NaN");
+            let mut x = self;
+            if x < min { x = min; }
+            if x > max { x = max; }
+            x
+        }
+        pub fn min(self, o: $T) -> $T { Float::min(self, o) }
+        pub fn max(self, o: $T) -> $T { Float::max(self, o) }
+        pub fn abs(self) -> $T { Float::abs(self) }
+        pub fn signum(self) -> $T { Float::signum(self) }
+        pub fn copysign(self, sign: $T) -> $T { if (sign < <$T as RealPrim>::c(0, 1)) == (self < <$T as RealPrim>::c(0, 1)) { self } else { -self } }
+        pub fn floor(self) -> $T { Float::floor(self) }
+        pub fn ceil(self) -> $T { Float::ceil(self) }
+        pub fn round(self) -> $T { Float::round(self) }
+        pub fn trunc(self) -> $T { Float::trunc(self) }
+        pub fn fract(self) -> $T { Float::fract(self) }
+        pub fn mul_add(self, a: $T, b: $T) -> $T { self * a + b }
+        pub fn recip(self) -> $T { Float::recip(self) }
+        pub fn powi(self, n: i32) -> $T { Float::powi(self, n) }
+        pub fn sqrt(self) -> $T { Float::sqrt(self) }
+        pub fn hypot(self, o: $T) -> $T { Float::hypot(self, o) }
+        pub fn sin(self) -> $T { Float::sin(self) }
+        pub fn cos(self) -> $T { Float::cos(self) }
+        pub fn tan(self) -> $T { Float::tan(self) }
+        pub fn asin(self) -> $T { Float::asin(self) }
+        pub fn acos(self) -> $T { Float::acos(self) }
+        pub fn atan(self) -> $T { Float::atan(self) }
+        pub fn atan2(self, o: $T) -> $T { Float::atan2(self, o) }
+        pub fn sin_cos(self) -> ($T, $T) { Float::sin_cos(self) }
+        pub fn to_degrees(self) -> $T { Float::to_degrees(self) }
+        pub fn to_radians(self) -> $T { Float::to_radians(self) }
+        pub fn is_nan(self) -> bool { false }
+        pub fn is_infinite(self) -> bool { false }
+        pub fn is_finite(self) -> bool { true }
+        pub fn is_sign_negative(self) -> bool { Float::is_sign_negative(self) }
+        pub fn is_sign_positive(self) -> bool { Float::is_sign_positive(self) }
+        /// least non-negative remainder: `self - rhs.abs() * floor(self / rhs.abs())`
+        pub fn rem_euclid(self, rhs: $T) -> $T {
+            let r = self % rhs;
+            if r < <$T as RealPrim>::c(0, 1) { r + Float::abs(rhs) } else { r }
+        }
+        pub fn div_euclid(self, rhs: $T) -> $T {
+            let q = Float::trunc(self / rhs);
+            if self % rhs < <$T as RealPrim>::c(0, 1) { if rhs > <$T as RealPrim>::c(0, 1) { q - <$T as RealPrim>::c(1, 1) } else { q + <$T as RealPrim>::c(1, 1) } } else { q }
+        }
+    }
+} }
+f32_like_inherent!(SymR);
+f32_like_inherent!(Cn);
 impl std::fmt::Debug for SymR {
     fn fmt(&self, f: &mut std::fmt::Formatter) -> std::fmt::Result {
         write!(f, "#{}", self.0)
